@@ -6,6 +6,11 @@ COMMON_TB = [
 
 PROPS = {
     "C01": dict(
+        claim="Lean 4 model of the CBE encoder and decoder (CE/Cbe); per-event prefix-code round-trip theorems with arbitrary suffix "
+              "(every integer width so far; ULEB128; little-endian); correspondence of model and implementation (encoder bytes, decoder events) "
+              "on generated rules-valid streams; the property oracle canon(decoded)=canon(original) is evaluated by the Lean driver on the implementation's own output",
+        note="partial: the stream-level induction is not proved yet; floats, decimals, arrays and times are covered by correspondence+oracle only. "
+             "Trusted: Lean kernel; hand-written model tied by the correspondence harness; go-compact-time not modelled (time events: oracle on the implementation only)",
         level="proof", n_quick=6000, n_thorough=200000, shards=16,
         lean_modules=["CE.Props.C01"],
         rule="grammar-directed rules-valid event streams (harness/gen.go) from splitmix64(VERIF_SEED, index); "
@@ -13,4 +18,23 @@ PROPS = {
         trusted_base=COMMON_TB + ["go-compact-time codec (external) is not modelled: streams with times are checked by the oracle on the implementation only"],
         assumptions=["IEEE-754 correct rounding of float64->float32 conversion (F32Conv)"],
     ),
+    "C10": dict(
+        claim="the 23x23 rule table is translated from /repo/rules/*.go into an action DSL on every run and proved equal to the model table (GenCheck); "
+              "the clauses of the property that are table facts (header/terminal, key position, edge parts, node value, record types only at top level, marker targets) "
+              "are kernel-checked by `decide` over the whole table; the interpreter + Context model runs in lock step with the real validator (verdict, rejection index, "
+              "error class, forwarded events) and the independent recursive-descent grammar CE/Rules/Spec.lean judges every case (WF.REL)",
+        note="partial: machine<->grammar equivalence is not yet a theorem (exercised by the oracle on random, mutated and exhaustive short sequences). "
+             "Trusted: translator extract/extract.py; hand-modelled Context methods; Unicode identifier table extracted as ranges",
+        level="proof", n_quick=8000, n_thorough=400000, shards=16,
+        lean_modules=["CE.Props.C10", "CE.Gen.Check"],
+        rule="valid streams from the grammar-directed generator and 1–2 random mutations of them (delete/duplicate/swap/replace/insert/tweak/copy), "
+             "plus every sequence bd v:0 <≤4 (quick) / ≤6 (thorough) abstract events> explored exhaustively with prefix pruning; "
+             "non-trivial = longer than the header; distinct by event text",
+        trusted_base=COMMON_TB + ["rule table translated from /repo/rules/*.go by extract/extract.py (statement-by-statement, unknown statements rejected) "
+                                  "and proved equal to the model table in CE/Gen/Check.lean on every run",
+                                  "Context methods (context.go, context_array.go) and rules_event_rcv.go are hand-modelled in CE/Rules/Machine.lean and tied by the RULES correspondence"],
+        assumptions=["the grammar CE/Rules/Spec.lean is the reading of the property text; its equivalence with the machine is exercised (WF.REL oracle), not yet proved"],
+    ),
 }
+
+NOT_APPLICABLE = {}
